@@ -10,7 +10,7 @@ MODULE = "Poupool.Properties.C13"
 def run(chk):
     from vlib import lean as _lean
     ac.run_actor_property(chk, MODULE, THEOREMS, monitor_pids=["C13"], extra=globals().get("extra"))
-    ac.dispatch_facts(chk, ['C14_fact_methods', 'C14_fact_modes', 'C14_fact_swim_timer', 'C14_fact_swim_speed'])
+    ac.dispatch_facts(chk, ['C14_fact_routing', 'C14_fact_modes', 'C14_fact_swim_timer', 'C14_fact_swim_speed'])
     from checks import c18 as _c18
     _c18.swim_device_correspondence(chk)  # halting the pump relies on SwimPumpDevice.off() de-energising under every DAC fault pattern
     from checks import main_wiring as _mw
